@@ -8,7 +8,7 @@ git -C /repo worktree add -q --detach $W HEAD || exit 2
 export GOPROXY=off GOSUMDB=off GOTOOLCHAIN=local; unset GOFLAGS
 dir=$(head -1 $D/demo_test.go | grep -o 'ociregistry[A-Za-z/_]*\|cmd/[a-z]*' | head -1)
 [ -z "$dir" ] && dir=ociregistry/ocimem
-run_demo() { cp $D/demo_test.go $W/$dir/zz_demo_test.go; (cd $W/$dir && go test -count=1 -run 'Demo|C0|C1' . >/tmp/demo.$$ 2>&1); rc=$?; rm -f $W/$dir/zz_demo_test.go; return $rc; }
+run_demo() { cp $D/demo_test.go $W/$dir/zz_demo_test.go; (cd $W/$dir && go test -count=1 -run "$(grep -o '^func Test[A-Za-z0-9_]*' $D/demo_test.go | sed 's/func //' | paste -sd'|')" . >/tmp/demo.$$ 2>&1); rc=$?; rm -f $W/$dir/zz_demo_test.go; return $rc; }
 run_demo; clean=$?
 (cd $W && git apply $D/patch.diff) || { echo "$D: PATCH DOES NOT APPLY"; git -C /repo worktree remove --force $W; exit 1; }
 (cd $W/ociregistry && go build ./...) || { echo "$D: DOES NOT BUILD"; git -C /repo worktree remove --force $W; exit 1; }
